@@ -19,6 +19,9 @@ from harness.tracecheck import validate_traces
 
 SD = SPEC / "dispatcher"
 DESIGN_REF = "DESIGN.md section 7 (C19)"
+# short TLC runs are dominated by JVM warm-up: C1-only JIT and two GC threads halve their cost (not used for the big thorough runs)
+FAST = ["-XX:TieredStopAtLevel=1", "-XX:ParallelGCThreads=2"]
+FAST_ENV = {"JDK_JAVA_OPTIONS": " ".join(FAST)}
 INVS = ["TypeOK", "C19_OnceInOrder", "C19_InvocationOrder", "C19_IgnoreDeliversAll", "C19_PropagateDelivers",
         "C19_IgnoreDoesNotStopPlan", "C19_PropagateEndsPlan", "C19_RunClosedFail"]
 ALL_NAMES = ["all", "start", "descriptor", "event", "stop"]
@@ -137,7 +140,7 @@ def gen_histories(ctx, cfgname):
     """all terminal histories of the model for the replay domain, for the registry as found and repaired (one TLC run,
     which also checks every invariant on that domain)"""
     out = {}
-    res = run_tlc("DispatcherErr", cfgname, spec_dir=SD, tag="C19r", timeout=3000)      # (PrintT lines are atomic)
+    res = run_tlc("DispatcherErr", cfgname, spec_dir=SD, tag="C19r", timeout=3000, java_opts=FAST if ctx.quick else None)      # (PrintT lines are atomic)
     ctx.add_tlc(res, f"DispatcherErr exhaustive + replay generation {cfgname}")
     if not res.ok:
         st = res.trace[-1][1] if res.trace else {}
@@ -172,17 +175,18 @@ def random_cfg(rng):
 
 def run(ctx):
     logging.getLogger("bluesky").setLevel(logging.CRITICAL + 10)
-    # 1. exhaustive model checking of the design (domains: Scenarios in DispatcherErr.tla).  quick: registry as found
-    #    (finding exempted); thorough: as found and repaired.  The replay domain of step 2 is checked for both.
-    cfgname = "DispatcherErr_quick.cfg" if ctx.quick else "DispatcherErr_thorough.cfg"
-    res = run_tlc("DispatcherErr", cfgname, spec_dir=SD, tag="C19", timeout=3000)
-    ctx.add_tlc(res, f"DispatcherErr exhaustive {cfgname}")
-    if not res.ok:
-        st = res.trace[-1][1] if res.trace else {}
-        ctx.violation(f"spec:{res.violated}:deliverAll={st.get('deliverAll')}",
-                      f"DispatcherErr.tla {res.kind} {res.violated} violated for scenario {st.get('cfg')}: {st.get('hist')}",
-                      {"cfg": str(st.get("cfg")), "hist": str(st.get("hist"))})
-        return
+    # 1. exhaustive model checking of the design (domains: Init in DispatcherErr.tla).  quick: registry as found (finding
+    #    exempted); thorough: as found on the full domain, repaired on the quick domain.  The replay domain of step 2 is
+    #    checked for both registries.
+    for cfgname in (["DispatcherErr_quick.cfg"] if ctx.quick else ["DispatcherErr_thorough.cfg", "DispatcherErr_repaired.cfg"]):
+        res = run_tlc("DispatcherErr", cfgname, spec_dir=SD, tag="C19", timeout=3000)
+        ctx.add_tlc(res, f"DispatcherErr exhaustive {cfgname}")
+        if not res.ok:
+            st = res.trace[-1][1] if res.trace else {}
+            ctx.violation(f"spec:{res.violated}:deliverAll={st.get('deliverAll')}",
+                          f"DispatcherErr.tla {res.kind} {res.violated} violated for scenario {st.get('cfg')}: {st.get('hist')}",
+                          {"cfg": str(st.get("cfg")), "hist": str(st.get("hist"))})
+            return
     ctx.cov["exhaustive"] = True
 
     # 2. every scenario of the replay domain executed on a real RunEngine
@@ -235,7 +239,7 @@ def run(ctx):
     for _ in range(120 if ctx.quick else 3000):
         c = random_cfg(rng)
         traces.append({"cfg": c, "ev": strip(execute(c))})
-    v = validate_traces("DispatcherErrTrace", "DispatcherErrTrace.cfg", traces, SD, ctx.out, tag="C19t", timeout=3000)
+    v = validate_traces("DispatcherErrTrace", "DispatcherErrTrace.cfg", traces, SD, ctx.out, tag="C19t", timeout=3000, env=FAST_ENV)
     ctx.add_tlc(v.res, "DispatcherErrTrace")
     for t in traces:
         ctx.case(cfg_key(t["cfg"]), nontrivial(t["cfg"]))
